@@ -5,6 +5,7 @@ import Frp.Engines.Conf
 import Frp.Engines.Nat
 import Frp.Engines.Wait
 import Frp.Engines.Plugin
+import Frp.Engines.Client
 /-! Registry of driver engines (one line per engine). -/
 namespace Frp.Engines
 open Frp.Proto
@@ -16,5 +17,7 @@ def all : List (String × Engine) :=
   , ("nat", nat)
   , ("wait", wait)
   , ("plugin", plugin)
+  , ("client", client)
+  , ("health", health)
   ]
 end Frp.Engines
